@@ -386,19 +386,15 @@ Definition compat_byte (v : sps_syntax) : N :=
 (* what an int-valued se(v) element becomes in a Go uint field if stored by conversion *)
 Definition z_as_uint (k : Z) : N := Z.to_N (k mod 18446744073709551616)%Z.
 
-Definition expected_sps (beyond : bool) (v : sps_syntax) : sps :=
+(* offmap: how an se(v) value shows up in the parser's uint field; nb0/nb1: byte counters *)
+Definition expected_sps_gen (offmap : Z -> N) (nb0 nb1 : N) (beyond : bool) (v : sps_syntax) : sps :=
   let hp := has_chroma_block (profile_idc v) in
   let smp := hp && seq_scaling_matrix_present_flag v in
   let p0 := pic_order_cnt_type v =? 0 in
   let p1 := pic_order_cnt_type v =? 1 in
   let cr := frame_cropping_flag v in
   let n (c : bool) (x : N) := if c then x else 0 in
-  let pre := 8 + lenN (ser_sps_pre v) in
   let vp := vui_parameters_present_flag v in
-  let read := if vp
-              then pre + lenN (ser_vui_sar (vui_params v))
-                   + (if beyond then lenN (ser_vui_rest (vui_params v)) else 0)
-              else pre in
   mkSps (profile_idc v) (compat_byte v) (level_idc v) (seq_parameter_set_id v)
         (eff_chroma_format_idc v) (eff_separate_colour_plane v)
         (n hp (bit_depth_luma_minus8 v)) (n hp (bit_depth_chroma_minus8 v))
@@ -407,14 +403,28 @@ Definition expected_sps (beyond : bool) (v : sps_syntax) : sps :=
         (log2_max_frame_num_minus4 v) (pic_order_cnt_type v)
         (n p0 (log2_max_pic_order_cnt_lsb_minus4 v))
         (p1 && delta_pic_order_always_zero_flag v)
-        (n p1 (z_as_uint (offset_for_non_ref_pic v)))
-        (n p1 (z_as_uint (offset_for_top_to_bottom_field v)))
-        (if p1 then map z_as_uint (offset_for_ref_frame v) else [])
+        (n p1 (offmap (offset_for_non_ref_pic v)))
+        (n p1 (offmap (offset_for_top_to_bottom_field v)))
+        (if p1 then map offmap (offset_for_ref_frame v) else [])
         (max_num_ref_frames v) (gaps_in_frame_num_value_allowed_flag v)
         (frame_mbs_only_flag v) (negb (frame_mbs_only_flag v) && mb_adaptive_frame_field_flag v)
         (direct_8x8_inference_flag v) cr
         (n cr (frame_crop_left_offset v)) (n cr (frame_crop_right_offset v))
         (n cr (frame_crop_top_offset v)) (n cr (frame_crop_bottom_offset v))
         (display_width v) (display_height v)
-        (nbytes_at (raw_sps v) pre) (nbytes_at (raw_sps v) read)
+        nb0 nb1
         (if vp then Some (expected_vui beyond (vui_params v)) else None).
+
+(* number of bits of the NAL unit (header included) up to and including vui_parameters_present_flag,
+   and up to the last bit the parser reads *)
+Definition sps_bits_before_vui (v : sps_syntax) : N := 8 + lenN (ser_sps_pre v).
+Definition sps_bits_read (beyond : bool) (v : sps_syntax) : N :=
+  sps_bits_before_vui v
+  + (if vui_parameters_present_flag v
+     then lenN (ser_vui_sar (vui_params v)) + (if beyond then lenN (ser_vui_rest (vui_params v)) else 0)
+     else 0).
+
+Definition expected_sps (beyond : bool) (v : sps_syntax) : sps :=
+  expected_sps_gen z_as_uint
+    (nbytes_at (raw_sps v) (sps_bits_before_vui v)) (nbytes_at (raw_sps v) (sps_bits_read beyond v))
+    beyond v.
